@@ -30,7 +30,7 @@ type verifShard struct {
 
 var verifCorpusKeys = []string{"a", "b", "c", "d", "e"}
 var verifCorpusIDs = []string{"d0", "d1", "d2", "d3", "d4"}
-var verifCorpusFacet = []string{"x", "y", "x", "", "y"} // value of field g ("" = missing)
+var verifCorpusFacet = []string{"x", "y", "y", "", "x"} // value of field g ("" = missing)
 
 func (s *verifShard) Name() string { return s.name }
 
